@@ -1,6 +1,6 @@
 (* C14 - Every deal survives every encoding round trip.
    Only statements, each closed by [exact]; proofs are in the files imported below. *)
-From BE Require Import Model.Hands Proofs.Hands.
+From BE Require Import Model.Hands Proofs.Hands Gen.Regexes Proofs.Pins.
 From Coq Require Import Permutation.
 Local Open Scope nat_scope.
 
@@ -99,6 +99,12 @@ Theorem C14_dealer :
   (forall p, length (d p) = 13 /\ NoDup (d p)) /\ disjoint d /\ (forall c, exists p, In c (d p)).
 Proof. exact dealer_deals_a_deal. Qed.
 Print Assumptions C14_dealer.
+
+(* the patterns of hands.py, regenerated from the source on every run, are the ones the matchers of Model/Hands.v mirror *)
+Theorem C14_regex_pins :
+  from_file "hands.py" regexes = pinned_hands.
+Proof. exact pins_hands. Qed.
+Print Assumptions C14_regex_pins.
 
 (* non-vacuity: a deal with voids and a 13-card suit written from East *)
 Theorem C14_example_read_back :
